@@ -35,6 +35,8 @@ MIN = {'quick': {'distinct': 2000,
                            'transitions.gap': 1500,
                            'cli.transitions': 20},
                  'strata': {'cli with a token-editing transformation': 8,
+                            'cli with --verbose': 20,
+                            'cli with --transformparams': 20,
                             'command line: two readings of one sentence in '
                             'a file': 10,
                             'cli with latin-1 on either side': 10,
@@ -566,6 +568,15 @@ def cli_case(ctx, bank, system, pos, sfmt='export', edit=False,
         bank_expected = bank
     if pos:
         args += ['--dest-opts', 'pos']
+    cli_case.n += 1
+    if cli_case.n % 3 == 0:
+        args += ['--verbose']
+        ctx.stratum('cli with --verbose')
+    if cli_case.n % 4 == 1:
+        # a parameter for the transformations: binarization nodes are
+        # labelled @ alone (they are removed before the comparison anyway)
+        args += ['--transformparams', 'bare_bin_labels']
+        ctx.stratum('cli with --transformparams')
     case = {'kind': 'cli', 'bank': bank, 'system': system, 'pos': pos,
             'sfmt': sfmt, 'edit': edit, 'senc': senc, 'denc': denc,
             'top': top, 'nohead': nohead, 'existing': existing}
@@ -635,6 +646,9 @@ def cli_case(ctx, bank, system, pos, sfmt='export', edit=False,
     ctx.case(['cli', system, pos, [s['root'] for s in bank]])
     ctx.stratum('cli ' + system)
     ctx.stratum('cli source ' + sfmt)
+
+
+cli_case.n = 0
 
 
 def splice_at(m):
